@@ -16,7 +16,7 @@
 -/
 namespace OttoVerif.C17
 
-abbrev Addr := Nat
+scoped notation "Addr" => Nat
 
 /-- `Value` (value.go:29): clone.go:122 `cloner.value` follows only `*object` payloads. -/
 inductive Val
